@@ -100,10 +100,11 @@ def main():
         if confirmed or keep:
             out = os.path.join(VERIF, 'seeded', sid)
             os.makedirs(out, exist_ok=True)
-            shutil.copy(os.path.join(src, 'patch.diff'), out)
-            shutil.copy(os.path.join(src, 'demo.cpp'), out)
-            if os.path.exists(os.path.join(src, 'NOTES.md')):
-                shutil.copy(os.path.join(src, 'NOTES.md'), out)
+            if os.path.realpath(src) != os.path.realpath(out):
+                shutil.copy(os.path.join(src, 'patch.diff'), out)
+                shutil.copy(os.path.join(src, 'demo.cpp'), out)
+                if os.path.exists(os.path.join(src, 'NOTES.md')):
+                    shutil.copy(os.path.join(src, 'NOTES.md'), out)
             prev = {}
             if os.path.exists(os.path.join(out, 'meta.json')):
                 prev = json.load(open(os.path.join(out, 'meta.json')))
